@@ -3,11 +3,6 @@
 # claimed in DESIGN.md but whose unit is not built yet: listed under not_applicable until it is
 NOT_YET = {
     'C02': 'SHORT unit under construction',
-    'C03': 'SEMA unit under construction',
-    'C06': 'SEMA unit under construction',
-    'C08': 'SEMA unit under construction',
-    'C09': 'SEMA unit under construction',
-    'C13': 'SEMA unit under construction',
 }
 
 UNITS = ['types', 'sym', 'lex', 'parser', 'sema']
@@ -39,7 +34,7 @@ PROPS = {
         explanation='Verus proves per-operation contracts over a stack-of-maps view; induction over histories is the invariant.',
     ),
     'C07': dict(
-        units=['sym'],
+        units=['sym', 'sema'],
         decided=[
             'C19 contracts (innermost-first resolution, redeclaration only in the current scope, ids index the final table)',
             'Context::lookup_symbol / lookup_gate_symbol push exactly one UndefVarError / UndefGateError iff resolution fails, nothing otherwise, and resolve innermost-first',
@@ -117,6 +112,60 @@ PROPS = {
         not_decided=['parser diagnostic offsets through Builder (SHORT unit)', 'escape-validation offsets, ERROR *tokens* without a diagnostic (lexer Unknown -> ERROR kind)',
                      'semantic diagnostic ranges (SemanticError::range is a rowan node range by construction: one-line accessor, not modelled)',
                      '"a diagnostic-free parse contains no error node" as a whole-tree statement'],
+        explanation='Verus.',
+    ),
+    'C03': dict(
+        units=['sema', 'sym'],
+        decided=[
+            'every unwrap / panic! / unreachable! / todo! / index site inside the analyser functions under contract (closure-free part of syntax_to_semantics.rs, all of asg.rs) is one of: proved unreachable, assumed-parser (listed accessor / arm assumptions: hold on diagnostic-free trees), or a recorded known finding with a witness program',
+            'SymbolTable::exit_scope / enter_scope assertions and Program::set_version / AnnotatedStmt::new panics are preconditions (call sites in unverified functions: not decided)',
+        ],
+        not_decided=['sites inside the functions that are not verified (stmt_to_asg_stmt, expr_stmt_to_asg_stmt, syntax_to_semantic, block / list helpers, bind_*): closures capturing &mut Context',
+                     '"only the global scope open afterwards" (with_scope! pairs are in stmt_to_asg_stmt)', 'memory / termination of the recursion over trees', 'source_file.rs include handling'],
+        explanation='Verus over an opaque, mechanically generated AST view (accessors may return anything unless listed as assumed-parser).',
+    ),
+    'C06': dict(
+        units=['sema'],
+        decided=[
+            'binary_op_to_asg_type maps each syntactic operator to the graph operator of the same meaning (carve-out: **)',
+            'for every ASG node: a constructor parameter named like a field initialises that field, an accessor named like a field returns it (83 contracts generated from struct definitions and signatures, never from bodies)',
+            'Program::insert_stmt appends; gate-call modifiers are kept; an expression that is present is always translated',
+        ],
+        not_decided=['source order / body attachment / annotation attachment / include expansion (syntax_to_semantic, stmt_to_asg_stmt, block_*: closures)',
+                     'AST accessor roles (e.g. RangeExpr::start_step_stop): methods over rowan nodes, opaque here'],
+        explanation='Verus.',
+    ),
+    'C08': dict(
+        units=['sema', 'types'],
+        decided=[
+            'literal constructors: int / float / bool / duration / imaginary-float literals have the type of their class, all const (carve-out: imaginary int)',
+            'Cast::to_texpr has the target type; MeasureExpression::to_texpr has the bit shape of its operand; UnaryExpr::to_texpr',
+            'BinaryExpr::new_texpr_with_cast: result type is the common type (implicit_cast_type = promotion, float for integer division) and each operand has that type or is an explicit cast to exactly it',
+            'identifier expressions carry the symbol type (lookup_identifier); equal_up_to_constness is exactly "equal up to const"',
+        ],
+        not_decided=['the declaration / assignment decision table as a postcondition of classical_declaration_statement_to_asg_stmt / assignment_stmt_to_asg_stmt (their helper predicates are under contract; the end-to-end rule is not stated yet)',
+                     'types of call / index / range expressions beyond what their constructors assign'],
+        explanation='Verus.',
+    ),
+    'C09': dict(
+        units=['sema', 'sym'],
+        decided=[
+            'scalar_type_to_type: base type <-> keyword, const flag = argument, bit[n] / qubit[n] -> one-dimensional registers of length n, width = designator value',
+            'designator_to_asg: an integer literal yields exactly its value (carve-out: >= 2^32), any other literal is diagnosed, a const identifier yields its recorded value or InvalidDesignatorError',
+            'TryFrom<&TExpr> for u32 accepts only a cast of a non-negative integer literal that fits u32',
+            'Context::new_binding / SymbolTable::new_binding store exactly (name, type) (SYM unit)',
+        ],
+        not_decided=['gate arity / def signature binding and return type (stmt_to_asg_stmt, bind_*)', 'the standard-gate table (flat_map/filter with a side-effecting closure), gates()'],
+        explanation='Verus.',
+    ),
+    'C13': dict(
+        units=['sema', 'sym', 'types'],
+        decided=[
+            'gate_call_expr_to_asg_stmt: after the operands and parameters, exactly [UndefGateError if unresolved] ++ [NumGateParamsError iff Gate(np,_) and np != |params|] ++ [NumGateQubitsError iff nq != |qubits|] / [IncompatibleTypesError iff resolved non-gate] are appended',
+            'gate_operand_to_asg_texpr: an identifier operand is reported iff its type is not qubit / hardware qubit / qubit array',
+            'Type::is_quantum is exactly {Qubit, QubitArray, HardwareQubit}; is_const exact',
+        ],
+        not_decided=['qubit/gate/def/include outside global scope, non-duration delay (arms of stmt_to_asg_stmt)', 'BinExpr quantum-operand / ReturnInGlobalScope / NumDefParams / MutateConst as end-to-end postconditions (inside expr_to_asg_texpr / assignment: safety only)'],
         explanation='Verus.',
     ),
 }
